@@ -162,6 +162,40 @@ def sc_validity(name, expr):
                       describe=f"is_valid_expression('{expr}'): {len(cers)} concurrent evaluations with context-local data")
 
 
+def sc_concurrent(name, expr, cer_values):
+    """several evaluations of one AHB expression running concurrently, each with its own context-local evaluatable data from which requirement
+    constraints, format constraints AND hint texts are taken: every evaluation's complete result must be the one it has when it runs alone"""
+    import ahb
+    from ahbicht.expressions.ahb_expression_evaluation import evaluate_ahb_expression_tree
+    from ahbicht.expressions.expression_resolver import parse_expression_including_unresolved_subexpressions
+    ev = GT.make_evaluators(from_data=True)
+    cers = [ahb.make_cer(**v) for v in cer_values]
+
+    async def parse():
+        return await parse_expression_including_unresolved_subexpressions(expr)
+
+    async def one(cer):
+        ahb.set_cer(cer)        # (inside the evaluation's own task: context-local)
+        return proj_ahb(await evaluate_ahb_expression_tree(await parse()))
+
+    tree = _auto(parse, ev, tag_data=True)
+    children, alone = [], []
+    for cer in cers:
+        cid = GT.cer_id(cer)
+        ahb.set_cer(cer)
+        parts = ahb_parts(tree, ev, tag_data=True)
+        children.append(PL.seq(PL.bind(cid), PL.plan_ahb_evaluation(parts, text_tag=f"@{cid}", tag=f"@{cid}")))
+        alone.append(_auto(lambda c=cer: one(c), ev, tag_data=True))
+    plan = PL.par(*children)
+    expect = {l: ("any", l.split("@", 1)[1].rsplit("#", 1)[0]) for l in PL.all_labels(PL.number_labels(plan))}
+
+    async def factory():
+        return tuple(await asyncio.gather(*[asyncio.ensure_future(one(c)) for c in cers]))
+
+    return A.Scenario(name, plan, factory, ev, tag_data=True, expect=expect, expected=tuple(alone),
+                      describe=f"{len(cers)} concurrent evaluations of '{expr}', each with its own context-local data (values and hint texts differ)")
+
+
 def scenarios(thorough):
     s = [
         sc_requirement("rc3", "[1] O [2] U [3]", {1: "F", 2: "U", 3: "U"}),
@@ -183,6 +217,9 @@ def scenarios(thorough):
         sc_ahb("ahbpk", "Muss [1P] U [4] Soll [2P][902]", {1: "U", 2: "F", 4: "F"}, text="z2", packages={"1P": "[1]", "2P": "[2] U [501]"}),
         sc_gather_if_necessary("gin"),
         sc_validity("valid1h", "Kann [1] U [501]"),
+        sc_concurrent("conc3", "Muss [1] U [501] Kann [2][901]",
+                      [dict(rc={1: "F", 2: "F"}, fc={901: True}, hints={501: "hint of the first"}), dict(rc={1: "U", 2: "F"}, fc={901: False}, hints={501: "hint of the second"}),
+                       dict(rc={1: "F", 2: "U"}, fc={901: True}, hints={501: "hint of the third"})]),
         sc_validity("validfc", "Muss [1][901]"),
     ]
     if thorough:
